@@ -55,7 +55,7 @@ def evaluate(case):
             return dict(status="ok", sha="refused:" + why_not, refused=True)
         if r.rc != 0:
             return viol("C01|refused-representable|" + first_line(r.err), "exit %d on a representable tree\nstderr: %s" % (r.rc, r.err.decode("latin1")[-800:]))
-        im, err = packcheck.decode(img)
+        im, err = packcheck.decode(img, dev_block=cfg.get("B", 4096))
         if im is None:
             return viol("C01|undecodable|" + re.sub(r"\d+", "N", err)[:80], err)
         got = sqfsck.canon_tree(im)
